@@ -308,6 +308,7 @@ func init() {
 				jobs = append(jobs, vx.Job{Scenario: "mux.dgram", Params: vx.P("streams", "1", "sizes", "3,5", "method", m), Bound: b(1, 2), Weight: 4})
 			}
 		}
+		jobs = append(jobs, vx.Job{Scenario: "udp.route", Weight: 6})
 		for i := range jobs {
 			jobs[i].BudgetS = b(100, 900)
 		}
